@@ -40,7 +40,7 @@ func runC20(c *Ctx) error {
 		direct  bool
 	}
 	var mcs []mc
-	outsAll := [][]string{{"ok"}, {"err"}, {"panic"}, {"pubfail"}, {"late"}, {"ok", "err", "late"}, {"ok", "err", "panic", "pubfail", "ok"}, {"panic", "panic", "ok"}, {"pubfail", "ok", "err"}}
+	outsAll := [][]string{{"ok"}, {"err"}, {"panic"}, {"pubfail"}, {"late"}, {"okctx"}, {"okctx", "ok", "okctx", "pubfail"}, {"ok", "err", "late"}, {"ok", "err", "panic", "pubfail", "ok"}, {"panic", "panic", "ok"}, {"pubfail", "ok", "err"}}
 	for _, ap := range []int{1, 2} {
 		for _, o := range outsAll {
 			mcs = append(mcs, mc{ap, o, false})
@@ -67,7 +67,7 @@ func runC20(c *Ctx) error {
 		}
 		var o []string
 		for k := 0; k < 1+c.Rng.Intn(8); k++ {
-			o = append(o, []string{"ok", "err", "panic", "pubfail"}[c.Rng.Intn(4)])
+			o = append(o, []string{"ok", "err", "panic", "pubfail", "okctx"}[c.Rng.Intn(5)])
 		}
 		mcs = append(mcs, mc{1 + c.Rng.Intn(2), o, false})
 	}
@@ -200,6 +200,8 @@ func c20Delay(r *tr.Run) int {
 }
 
 // ------------------------------------------------------------------ transform / metrics decorator stacks
+type c20CtxKey struct{}
+
 func c20Stacks(r *tr.Run, c *Ctx) int {
 	n := 0
 	reg := prometheus.NewRegistry()
@@ -247,7 +249,9 @@ func c20Stacks(r *tr.Run, c *Ctx) int {
 				}
 				var msgs []*message.Message
 				for i := 0; i < nmsg; i++ {
-					msgs = append(msgs, message.NewMessage(fmt.Sprintf("s%d", i), []byte("x")))
+					m := message.NewMessage(fmt.Sprintf("s%d", i), []byte("x"))
+					m.SetContext(context.WithValue(context.Background(), c20CtxKey{}, i)) // every message travels with its OWN context
+					msgs = append(msgs, m)
 				}
 				err := pub.Publish("topic", msgs...)
 				calls := ip.Calls()
@@ -255,6 +259,7 @@ func c20Stacks(r *tr.Run, c *Ctx) int {
 				if order {
 					for i := range msgs {
 						order = order && calls[0].Msgs[i] == msgs[i]
+						order = order && calls[0].Msgs[i].Context().Value(c20CtxKey{}) == i // ... and still carries its own context values
 					}
 				}
 				ok := true
@@ -479,7 +484,11 @@ func c20Metrics(r *tr.Run, applied int, outs []string, retried bool) {
 			close(lateEntered)
 			<-lateRelease // returns (and the message is settled) only after Router.Close has closed the subscriber
 		}
-		return []*message.Message{message.NewMessage(msg.UUID+".o", nil)}, nil
+		out := message.NewMessage(msg.UUID+".o", nil)
+		if bh == "okctx" {
+			out.SetContext(msg.Context()) // the produced message carries the context of the consumed one (as context-propagating handlers do)
+		}
+		return []*message.Message{out}, nil
 	})
 	ctx, cancel := context.WithCancel(context.Background())
 	defer cancel()
